@@ -111,6 +111,8 @@ def counter_bounds(f):
             return psub(poly(t[2][2]), poly(t[2][1]))
         if tag(t) in ('arg', 'local'):
             return poly(('len', t))
+        if tag(t) == 'range':
+            return psub(poly(t[2]), poly(t[1]))        # an integer range iterated directly: hi - lo items
         return None
 
     def count_bound(v):
